@@ -27,7 +27,10 @@ Record skcase := { k_ids : list str; k_iris : list str }.
 Record skobs := {
   ko_ids : list id_obs;
   ko_iris : list (bool * bool);   (* per IRI: _is_rdflib_skolem, _is_external_skolem *)
-  ko_round : bool                 (* g.skolemize().de_skolemize() has exactly the triples of g *)
+  ko_round : bool;                (* g.skolemize().de_skolemize() has exactly the triples of g *)
+  ko_big : bool                   (* a chain of 5000 blank nodes through the EXTERNAL branch (basepath
+                                     /.well-known/genid/) comes back as a chain of 5000 nodes: the memo of
+                                     external skolem IRIs is a function for the whole process *)
 }.
 
 Definition expect (i : str) : id_obs :=
@@ -36,7 +39,7 @@ Definition expect (i : str) : id_obs :=
 
 Definition sk_model_obs (c : skcase) : skobs :=
   {| ko_ids := map expect (k_ids c); ko_iris := map (fun _ => (false, false)) (k_iris c);
-     ko_round := true |}.
+     ko_round := true; ko_big := true |}.
 
 Definition id_obs_eqb (a b : id_obs) : bool :=
   str_eqb (io_join a) (io_join b) && str_eqb (io_path a) (io_path b)
@@ -46,11 +49,12 @@ Definition id_obs_eqb (a b : id_obs) : bool :=
 Definition sk_obs_eqb (a b : skobs) : bool :=
   list_eqb id_obs_eqb (ko_ids a) (ko_ids b)
   && list_eqb (pair_eqb Bool.eqb Bool.eqb) (ko_iris a) (ko_iris b)
-  && Bool.eqb (ko_round a) (ko_round b).
+  && Bool.eqb (ko_round a) (ko_round b) && Bool.eqb (ko_big a) (ko_big b).
 
 (* in scope (safe ids, no IRI that already looks like a skolem IRI): the
    hypotheses hold for every id and the round trip is the identity *)
 Definition sk_spec_ok (c : skcase) (o : skobs) : bool :=
+  ko_big o &&
   if forallb safe (k_ids c) && forallb (fun f => negb (fst f) && negb (snd f)) (ko_iris o)
   then list_eqb id_obs_eqb (ko_ids o) (map expect (k_ids c)) && ko_round o
   else true.
@@ -70,7 +74,7 @@ Proof. induction l as [|a l IH]; simpl; auto. now rewrite id_obs_eqb_refl. Qed.
 
 Theorem sk_spec_ok_model c : sk_spec_ok c (sk_model_obs c) = true.
 Proof.
-  unfold sk_spec_ok, sk_model_obs. cbn [ko_ids ko_iris ko_round].
+  unfold sk_spec_ok, sk_model_obs. cbn [ko_ids ko_iris ko_round ko_big andb].
   destruct (forallb safe (k_ids c) && _); auto.
   now rewrite list_id_obs_eqb_refl.
 Qed.
@@ -89,6 +93,6 @@ Theorem sk_spec_reading c o :
   forallb (fun f => negb (fst f) && negb (snd f)) (ko_iris o) = true ->
   list_eqb id_obs_eqb (ko_ids o) (map expect (k_ids c)) = true /\ ko_round o = true.
 Proof.
-  unfold sk_spec_ok. intros H H1 H2. rewrite H1, H2 in H. simpl in H.
-  now apply andb_true_iff in H.
+  unfold sk_spec_ok. intros H H1 H2. apply andb_true_iff in H. destruct H as [_ H].
+  rewrite H1, H2 in H. simpl in H. now apply andb_true_iff in H.
 Qed.
